@@ -1,7 +1,7 @@
 """C41 — queuing records exactly the program's operations, in order, in the innermost context."""
 from hypothesis import strategies as st
 
-from pv import specs
+from pv import gen, specs
 from pv.engine import Reject, Result, Viol
 
 ID = "C41"
@@ -26,7 +26,8 @@ ASSUMPTIONS = [
     "Likewise rejected: re-queuing (apply / queue()) a copy made by qp.apply whose original operands are still queued in "
     "the target context; copies of legacy wrappers own copied operands, copies of Operator2 wrappers share them, and "
     "no documentation says whether such an operand is dequeued.",
-    "lazy=False is exercised only through the documented flattening of prod/sum/s_prod (also reached via @, +, *).",
+    "lazy=False for prod/sum/s_prod is exercised through the documented flattening (also reached via @, +, *); eager qp.pow / "
+    "qp.adjoint (lazy=False) are checked in separate 'eager' cases: the recorded circuit must equal pre . base^z . post.",
 ]
 BUDGET = {"quick": {"examples": 1500}, "thorough": {"examples": 100000, "shards": 16}}
 SHRINK_LISTS = ("pre", "body")
@@ -155,8 +156,43 @@ def _program(draw, size):
     return {"pre": pre, "body": body}
 
 
+EAGER_FIXED = ["PauliX", "PauliY", "PauliZ", "Hadamard", "S", "T", "SX", "CNOT", "CZ", "CY", "SWAP", "ISWAP", "Toffoli", "CSWAP", "CCZ", "CH"]
+EAGER_PARAM = ["RX", "RY", "RZ", "PhaseShift", "Rot", "IsingXX", "IsingZZ", "CRX", "CRZ", "ControlledPhaseShift", "SISWAP", "ECR", "SingleExcitation", "U1"]
+EAGER_FRAC = {"PauliX": [0.5, 2.5], "PauliZ": [0.5, 0.25, 2.5, 2.25], "S": [0.5, 4.5], "Identity": [0.5]}
+
+
+@st.composite
+def _eager(draw):
+    """qp.pow / qp.adjoint with lazy=False inside a recording context: the eager result replaces its argument in the queue."""
+    name = draw(st.sampled_from(EAGER_FIXED + EAGER_FIXED + EAGER_PARAM))
+    n = gen.ALL_GATES[name][1] if name in gen.ALL_GATES else 1
+    wires = draw(gen.wire_labels(3))
+    base = draw(gen.gate(wires, {name: gen.ALL_GATES[name]}, ang=gen.generic_angles())) if len(wires) >= n else None
+    if base is None:
+        base = draw(gen.gate(wires, {"PauliZ": gen.ALL_GATES["PauliZ"]}))
+    fn = draw(st.sampled_from(["pow", "pow", "pow", "adjoint"]))
+    z = draw(st.sampled_from(EAGER_FRAC.get(base["op"], [])) | st.integers(-3, 17)) if base["op"] in EAGER_FRAC and draw(st.booleans()) else draw(st.integers(-3, 17))
+    z = float(z) if (isinstance(z, int) and draw(st.integers(0, 5)) == 0) else z
+    pool = {g: gen.ALL_GATES[g] for g in ("RX", "Hadamard", "CNOT", "T", "RY") if gen.ALL_GATES[g][1] <= len(wires)}
+    return {"eager": {"pre": draw(gen.op_list(wires, pool, 2, ang=gen.generic_angles(), p_derive=0.0)), "base": base, "fn": fn, "z": z,
+                      "post": draw(gen.op_list(wires, pool, 2, ang=gen.generic_angles(), p_derive=0.0)), "wires": wires,
+                      "again": draw(st.booleans())}}
+
+
+def enumerate_cases(tier):
+    k = 0
+    for name in ["PauliX", "PauliY", "PauliZ", "Hadamard", "S", "T", "SX", "CNOT", "SWAP"]:
+        period = {"S": 4, "T": 8, "SX": 4}.get(name, 2)
+        w = [0, 1][:gen.ALL_GATES[name][1]]
+        for z in (1, period + 1, float(period + 1), 2 * period + 1, period, 0, period - 1):
+            k += 1
+            yield {"eager": {"pre": [{"op": "Hadamard", "p": [], "w": [0]}], "base": {"op": name, "p": [], "w": w}, "fn": "pow", "z": z,
+                             "post": [{"op": "RX", "p": [0.3], "w": [0]}], "wires": [0, 1], "again": bool(k % 2)}}
+
+
 def strategy(tier):
-    return _program(25 if tier == "quick" else 60)
+    size = 25 if tier == "quick" else 60
+    return st.one_of(*([_program(size)] * 9 + [_eager()]))
 
 
 class Boom(Exception):
@@ -756,12 +792,62 @@ def build_term(qp, t):
 
 # =============================================================================================
 
+def check_eager(qp, e):
+    """The eager form of a wrapper constructor: whatever qp.pow / qp.adjoint (lazy=False) returns stands in the queue where
+    its argument stood (the argument itself is consumed); oracle = the circuit unitary pre . base^z . post."""
+    import numpy as np
+
+    from pv import specs
+    from pv.ref import sim
+
+    order = list(e["wires"])
+    with qp.queuing.AnnotatedQueue() as q:
+        for o in e["pre"]:
+            specs.build_op(o)
+        base = specs.build_op(e["base"])
+        r = qp.pow(base, e["z"], lazy=False) if e["fn"] == "pow" else qp.adjoint(base, lazy=False)
+        if e["again"] and e["fn"] == "pow":
+            r2 = qp.pow(r, 1, lazy=False)     # an eager no-op on the result keeps it recorded once
+        for o in e["post"]:
+            specs.build_op(o)
+    ops = list(q.queue)
+    feats = {"base": e["base"]["op"], "fn": e["fn"], "z": e["z"], "again": e["again"]}
+    sig = f"eager-{e['fn']}:{e['base']['op']}"
+    if any(o is base for o in ops) and r is not base:
+        raise Viol("eager-base-still-queued", f"{e}: queue={ops}", sig=sig, features=feats)
+    n_pre, n_post = len(e["pre"]), len(e["post"])
+    if len(ops) < n_pre + n_post:
+        raise Viol("eager-queue-lost-operators", f"{e}: queue={ops}", sig=sig, features=feats)
+    B = np.asarray(sim.op_matrix(specs.build_op(e["base"])))
+    z = e["z"]
+    if e["fn"] == "adjoint":
+        M = B.conj().T
+    elif float(z) == int(z):
+        M = np.linalg.matrix_power(B, int(z))
+    else:
+        from scipy.linalg import fractional_matrix_power
+
+        M = fractional_matrix_power(B, z)
+    bw = list(specs.build_op(e["base"]).wires)
+    U_pre = sim.unitary([specs.build_op(o) for o in e["pre"]], order)
+    U_post = sim.unitary([specs.build_op(o) for o in e["post"]], order)
+    expect = U_post @ sim.embed(M, bw, order) @ U_pre
+    got = sim.unitary(ops, order)
+    if not np.allclose(got, expect, atol=1e-9):
+        mid = ops[n_pre:len(ops) - n_post]
+        raise Viol("eager-queue-content", f"{e}: recorded middle={mid} returned={r!r}; circuit unitary differs by {np.abs(got - expect).max():.3g}",
+                   sig=sig, features=feats)
+    return Result(True, ["eager:" + e["fn"], "eager-base:" + e["base"]["op"], "eager-returned:" + type(r).__name__])
+
+
 def check(spec):  # noqa: C901
     import pennylane as qp
 
     QM = qp.queuing.QueuingManager
     if QM.recording():
         raise RuntimeError("harness: a recording context leaked from a previous case")
+    if "eager" in spec:
+        return check_eager(qp, spec["eager"])
     spec = number(spec)
     model, mtop, mexc, mpre = run_model(spec)   # may raise Reject before anything real runs
     try:
